@@ -49,7 +49,12 @@ Init ==
   /\ obj = M.zero /\ tf = NilObject /\ dg = <<>> /\ pn = FALSE
   /\ pc = 1 /\ hist = <<>> /\ viol = {} /\ aux = NoAux
 
-At(e) == pc <= Len(Script) /\ Script[pc] = e /\ ~pn
+\* A panic ends a behaviour unless the caller recovers and the next call of the script replaces the side the
+\* panicking call may have written halfway: the struct after CopyFrom, the Terraform object after CopyTo.
+Recovers == /\ pn /\ pc > 1 /\ pc <= Len(Script)
+            /\ \/ Script[pc - 1] = "CopyFrom" /\ Script[pc] \in {"SetObj", "SetPrior", "FreshObj"}
+               \/ Script[pc - 1] = "CopyTo" /\ Script[pc] \in {"LoadRaw", "LoadPlan"}
+At(e) == pc <= Len(Script) /\ Script[pc] = e /\ (~pn \/ Recovers)
 
 \* a transition: event e with argument arg leading to (o2, t2) with diagnostics d2 / panic p2
 Do(e, arg, o2, t2, d2, p2) ==
@@ -88,7 +93,7 @@ Next ==
 
 Spec == Init /\ [][Next]_vars
 
-Done == pc > Len(Script) \/ pn
+Done == pc > Len(Script) \/ (pn /\ ~Recovers)
 
 \* replay vector: printed once per complete behaviour (used as an INVARIANT: evaluated on every new state)
 Emit ==
